@@ -1,0 +1,27 @@
+//go:build verif
+
+// Package verifhook provides named observation points for the verification harness.
+// With the "verif" build tag, At calls the handler registered by the harness (if any),
+// which records the order in which goroutines pass the points and may yield or sleep there
+// to widen interleaving windows. The points sit between critical sections, never inside a held lock.
+package verifhook
+
+import "sync/atomic"
+
+var handler atomic.Pointer[func(point string)]
+
+// Set registers (or, with nil, removes) the handler called at every point.
+func Set(f func(point string)) {
+	if f == nil {
+		handler.Store(nil)
+		return
+	}
+	handler.Store(&f)
+}
+
+// At marks a named point in the code.
+func At(point string) {
+	if h := handler.Load(); h != nil {
+		(*h)(point)
+	}
+}
